@@ -505,7 +505,7 @@ class SimplicialComplex(Hypergraph):
                 if None in _:
                     raise XGIError("None cannot be a node or edge")
 
-                self._add_simplex(frozenset(members), idx)
+                self._add_simplex(frozenset(members), idx, **attr)
 
                 update_uid_counter(self, idx)
 
